@@ -1,5 +1,6 @@
 import PdshVerif.Base.Hex
 import PdshVerif.Relay.Model
+import PdshVerif.Relay.Growth
 import PdshVerif.Relay.Spec
 import Driver.Util
 
@@ -8,10 +9,18 @@ import Driver.Util
     pdshmodel relay index <meta> [split|joined]   index-level cbuf model underneath
     pdshmodel relay fifo  <meta> [split|joined]   FIFO specification + cbuf.c policy underneath
     pdshmodel relay spec                          the property-level oracle (C05/C06)
+    pdshmodel relay growth <meta>                 `growthOk <meta>` for the regenerated constants, the capacities
+                                                  the buffer runs through, the first step that loses data (if any)
 
     begin L K N name_0 .. name_{N-1}  -> ok <keep_domain> <meta>
-    feed i s HEX | eof i s | drain i s | flush i   -> <ncalls> <last ret> <th->rc> | S:HEX ...
+    feed i s HEX [CAP [NEINTR]] | eof i s [CAP [NEINTR]] | drain i s [CAP [NEINTR]] | flush i
+                                                    -> <ncalls> <last ret> <th->rc> | S:HEX ...
+        (CAP: the read(2) of the handler call delivers at most CAP bytes -- `handleCap`; 0 = EAGAIN although
+         data is there; `E`: the read fails with EIO -- `handleFail`, the diagnostic is answered as `9:-`;
+         NEINTR: that many reads fail with EINTR first -- retried inside cbuf.c, invisible here)
     run i s HEX ...  (whole stream = `runStream`)   -> run <th->rc|-> | S:HEX ...
+    rcperr i e POPT RV HEX ...  (`_parallel_copy` with pcp_server/pcp_client returning RV)
+                                                    -> rcp <RV> | S:HEX ...
     xrc HEX                                         -> <ret> <string left>
 
     spec lines:  rec <o|e> L K i N name_0 .. name_{N-1} S K' em_1 .. em_K'
@@ -77,19 +86,38 @@ def step (ops : BufOps β) (mk : Option β) (sizeMeta : Nat) (split : Bool)
               some { cs with hosts := cs.hosts.set i host' }
             let sno : Nat := if isErr then 2 else 1
             let readRc := !isErr
+            -- optional read cap of the handler call(s): `feed i s HEX [CAP [NEINTR]]`, `eof i s [CAP [NEINTR]]`,
+            -- `drain i s [CAP [NEINTR]]`; CAP = a number or `-` (none); the EINTR count is invisible to the model
+            let capOf (w : Option String) : Option Nat := w.bind String.toNat?
             if strm.closed then (st, "closed")
             else if op = "feed" then
               match Hex.decode (more.head?.getD "-") with
               | some bs =>
                 if strm.weof ∧ !bs.isEmpty then (st, "bad-op")
+                else if more[1]? = some "E" then
+                  -- the read fails (EIO): `handleFail`
+                  let (r, strm', rc', ems) := handleFail { strm with pipe := strm.pipe ++ bs } host.rc
+                  (put strm' rc', answer 1 r rc' ems)
                 else
                   let (r, strm', rc', ems) :=
-                    handle ops cs.cfg host.name sno readRc { strm with pipe := strm.pipe ++ bs } host.rc
+                    handleCap ops cs.cfg host.name sno readRc (capOf more[1]?) { strm with pipe := strm.pipe ++ bs } host.rc
                   (put strm' rc', answer 1 r rc' ems)
               | none => (st, "bad-op")
             else if op = "eof" then
-              let (r, strm', rc', ems) := handle ops cs.cfg host.name sno readRc { strm with weof := true } host.rc
+              let (r, strm', rc', ems) :=
+                handleCap ops cs.cfg host.name sno readRc (capOf more[0]?) { strm with weof := true } host.rc
               (put strm' rc', answer 1 r rc' ems)
+            else if op = "rcperr" then
+              -- `_parallel_copy`: rcperr i e POPT RV HEX.. -- the remote stderr of a pdcp/rpdcp target
+              match more with
+              | popt :: rv :: chunks =>
+                match rv.toInt?, chunks.mapM Hex.decode with
+                | some rv, some chunks =>
+                  let ems := parallelCopyStderr ops cs.cfg host.name t0 (popt ≠ "0") rv strm.buf chunks
+                  let strm' : Stream β := { strm with pipe := [], weof := true, closed := true }
+                  (put strm' host.rc, s!"rcp {rv} |" ++ emsText ems)
+                | _, _ => (st, "bad-op")
+              | _ => (st, "bad-op")
             else if op = "run" then
               -- a whole stream at once: `runStream`, the function the theorems of Props/C05, C06 are about
               match more.mapM Hex.decode with
@@ -102,9 +130,16 @@ def step (ops : BufOps β) (mk : Option β) (sizeMeta : Nat) (split : Bool)
             else if op = "drain" then
               if !strm.weof then (st, "bad-op not-eof")
               else
-                let (k, r, strm', rc', ems) :=
-                  drain ops cs.cfg host.name sno readRc (strm.pipe.length + 1) strm host.rc [] 0
-                (put strm' rc', answer k r rc' ems)
+                match capOf more[0]? with
+                | none =>
+                  let (k, r, strm', rc', ems) :=
+                    drain ops cs.cfg host.name sno readRc (strm.pipe.length + 1) strm host.rc [] 0
+                  (put strm' rc', answer k r rc' ems)
+                | some 0 => (st, "bad-op cap")          -- would never end
+                | some c =>
+                  let (k, r, strm', rc', ems) :=
+                    drainCap ops cs.cfg host.name sno readRc (some c) (strm.pipe.length + 1) strm host.rc [] 0
+                  (put strm' rc', answer k r rc' ems)
             else (st, "bad-op")
           | [] => (st, "bad-op")
       else (st, "bad-op")
@@ -152,6 +187,16 @@ def main (args : List String) : IO UInt32 := do
     let m := m.toNat?.getD 1
     Driver.forLines stdin (none : Option (Case PBuf)) (step fifoOps (mkFifoBuf m) m (splitArg rest)); return 0
   | ["spec"] => Driver.forLines stdin () (fun _ l => ((), specLine l)); return 0
+  | ["growth", m] =>
+    -- the side condition of the losslessness theorems on the regenerated constants (Relay/Growth.lean)
+    let m := m.toNat?.getD 1
+    let mx := Gen.RELAY_CBUF_MAX
+    let path := growthPath mx Gen.CBUF_CHUNK m 4096 Gen.RELAY_CBUF_MIN
+    let bad := match firstBadStep mx Gen.CBUF_CHUNK m 4096 Gen.RELAY_CBUF_MIN with
+      | some (s, n) => s!"{s}:{n}"
+      | none => "-"
+    IO.println s!"ok={if growthOk m then 1 else 0} min={Gen.RELAY_CBUF_MIN} max={mx} chunk={Gen.CBUF_CHUNK} meta={m} meta_assert={Gen.RELAY_SIZE_META_ASSERT} magic={Hex.encode magic} bad={bad} path={",".intercalate (path.map toString)}"
+    return 0
   | _ => IO.eprintln "usage: pdshmodel relay index|fifo <meta> [split|joined] | spec"; return 2
 
 end Driver.RelayDrv
